@@ -13,7 +13,7 @@ def cat(family, impl, kind, N, L, I):
     if key not in _CAT:
         cl = shapes.classes(family, impl)
         shapes.set_sizes(cl, L, I)
-        c, st = shapes.catalogue(cl, kind, N)
+        c, st = shapes.catalogue(cl, kind, N, sizes=(L, I))
         for h, e in st.pop('failed'):
             ent = (kind, L, I, h, e)
             if ent not in FAILED:
@@ -779,6 +779,8 @@ def ref_obligations(pid, tier, seed):
                 N = max(k for _, k in hist) + 1
                 obs.append(dict(id=base + '/grown', mod='h_ref', fn='ref_step', nk=N, args=args, pre=['0 <= op < %d' % h_ref.GROUPS[g]],
                                 params=dict(P, prov='grown', hist=hist), timeout=t))
+    # a history that killed the interpreter during the catalogue search
+    obs += failed_history_obligations(pid, impls=('c',))
     # memory bounds and reference accounting of the native-key families, decided on the IR (engine E2)
     obs += tree_ir_obligations(pid, tier, ['refs'], fams=['II', 'QQ'] if quick else ['II', 'UU', 'LL', 'QQ'], sets=True)
     bounds.update(per_condition_timeout_s=t, ir_tree='_BTree_set from IR on the stratified (2,2) catalogue core + stale-separator variants + (3,2) shapes')
